@@ -185,6 +185,47 @@ Definition aq_to_py (slices : list (share_table * list cell)) : result (list uce
 Definition covered (ep : share_table) (cells : list cell) : bool :=
   forallb (fun c => Qle_bool 0 (total_share ep (cperiod c)) && negb (Qeq_bool (total_share ep (cperiod c)) 0)) cells.
 
+(* ---- the share table the code computes (policy_years_covered, _policy_earned_premium_share_by_month without a
+   custom earning pattern, monthly_ep_to_quarterly_ep), at the level of month ids; policy-year origin on the first
+   day of a month.  Exact rationals: the order of the code's += is irrelevant. *)
+Definition ids (lo hi : Z) : list Z := map (fun k => (lo + Z.of_nat k)%Z) (seq 0 (Z.to_nat (hi - lo + 1))).
+(* what writing month wm adds to earning month j: vol/2 in the month written, vol in the L-1 following, vol/2 in the last *)
+Definition month_contrib (vol : Q) (L wm j : Z) : Q :=
+  if (j =? wm)%Z then vol / 2
+  else if (wm <? j)%Z && (j <? wm + L)%Z then vol
+  else if (j =? wm + L)%Z then vol / 2 else 0.
+Definition month_share (ws we L j : Z) : Q :=
+  let vol := 1 / inject_Z (we - ws + 1) / inject_Z L in
+  qsum (map (fun wm => month_contrib vol L wm j) (ids ws we)).
+Definition in_period (q : period) (d : Z) : bool := (fst q <=? d)%Z && (d <=? snd q)%Z.
+(* accident_quarter_ep_share[q]: present iff some earning month (its first day) lies in q *)
+Definition quarter_raw (ws we L : Z) (q : period) : option Q :=
+  match filter (fun j => in_period q (month_start j)) (ids ws (we + L)) with
+  | [] => None
+  | months => Some (qsum (map (month_share ws we L) months))
+  end.
+Definition py_table (continuous : bool) (L : Z) (quarters : list period) (s : Z) : period * list (period * Q) :=
+  let we := if continuous then (s + 11)%Z else s in
+  ((month_start s, month_end (s + 11)),
+   flat_map (fun q => match quarter_raw s we L q with Some x => [(q, x)] | None => [] end) quarters).
+(* policy_years_covered: start months s0, s0+12, ... up to and including the first one after e (the month of
+   the last period end); s0 = the last month <= f (month of the first period start) with the origin's month *)
+Definition py_first_start (f origin_month : Z) : Z := (f - (f - (origin_month - 1)) mod 12)%Z.
+Definition py_start_ids (s0 e : Z) : list Z :=
+  map (fun k => (s0 + 12 * Z.of_nat k)%Z) (seq 0 (Z.to_nat ((e - s0) / 12 + 2))).
+Definition code_share_table (continuous : bool) (L : Z) (quarters : list period) (starts : list Z) : share_table :=
+  map (py_table continuous L quarters) starts.
+(* comparison of a recorded table with the modelled one *)
+Definition tbl_close (tol : Q) (a b : list (period * Q)) : bool :=
+  (length a =? length b)%nat
+  && forallb (fun e => match passoc (fst e) b with Some y => qclose tol (snd e) y | None => false end) a.
+Fixpoint share_table_close (tol : Q) (a b : share_table) : bool :=
+  match a, b with
+  | [], [] => true
+  | x :: r, y :: s => period_eqb (fst x) (fst y) && tbl_close tol (snd x) (snd y) && share_table_close tol r s
+  | _, _ => false
+  end.
+
 (* ================================================================== program_earned_premium *)
 Fixpoint repeat_each {A} (n : nat) (l : list A) : list A :=
   match l with [] => [] | x :: r => repeat x n ++ repeat_each n r end.
